@@ -1,4 +1,5 @@
 import QP.Proofs.C06
+import QP.Proofs.C06Term
 /-!
 Property theorems for C06 — hardware-preparation rewrites of a program preserve what is played,
 establish their postcondition, reject without altering, and terminate.
@@ -106,6 +107,46 @@ theorem flatten_post (fuel : Nat) (d : Int) (t t' : Loop) (h : flatten fuel d t 
     · rename_i cs' hcs'
       simp only [Except.ok.injEq] at h; subst h
       exact flattenLoop_post fuel d [] cs cs' (by simp) hcs'
+
+/-- `flatten_and_balance` terminates: for every tree and every target depth there is an amount of fuel
+from which on the model's result no longer changes and is not "out of fuel" (no hypothesis on the
+tree: repetition counts may be 0, nodes may be empty or carry stray waveforms) -/
+theorem flatten_terminates (d : Int) (t : Loop) :
+    ∃ n, flatten n d t ≠ .error .fuel ∧ ∀ m, n ≤ m → flatten m d t = flatten n d t := by
+  cases t with
+  | mk r v m w cs =>
+    obtain ⟨n, R, hR, hn⟩ := flattenLoop_terminates d [] cs
+    refine ⟨n, ?_, fun m' hm => ?_⟩
+    · simp only [flatten, hn n (Nat.le_refl _)]
+      cases R with
+      | error e => simpa using hR
+      | ok cs' => simp
+    · simp only [flatten, hn m' hm, hn n (Nat.le_refl _)]
+
+/-- on a tree whose inner nodes carry no waveform `flatten_and_balance` ends regularly (no error at
+all), with the same played sequence and duration and with the requested depth and balance:
+termination, preservation and postcondition in one statement -/
+theorem flatten_total (d : Int) (t : Loop) (hv : noInnerWf t = true) :
+    ∃ n t', (∀ m, n ≤ m → flatten m d t = .ok t') ∧
+      play t' = play t ∧ duration t' = duration t ∧ FlattenPost d t' := by
+  obtain ⟨n, hne, hn⟩ := flatten_terminates d t
+  cases hr : flatten n d t with
+  | error e =>
+    exfalso
+    cases t with
+    | mk r v m w cs =>
+      simp only [flatten] at hr
+      split at hr
+      · rename_i e' he'
+        simp only [Except.error.injEq] at hr; subst hr
+        have := flattenLoop_error_is_fuel n d [] cs e' (noInnerWf_mk hv).2 he'
+        subst this
+        apply hne
+        simp [flatten, he']
+      · simp at hr
+  | ok t' =>
+    refine ⟨n, t', fun m' hm => by rw [hn m' hm, hr], ?_⟩
+    exact ⟨(flatten_preserves n d t t' hv hr).1, (flatten_preserves n d t t' hv hr).2, flatten_post n d t t' hr⟩
 
 theorem makeCompatible_preserves (minLen q : Nat) (rate : Rat) (t t' : Loop) (hv : valid t = true)
     (h : makeCompatible minLen q rate t = .ok t') : play t' = play t ∧ duration t' = duration t := by
